@@ -10,6 +10,7 @@ CONSTANTS
   MaxMut = 4
   MaxSnap = 1
   MaxDepth = 1
+  MaxTx = 0
   FrameAddr <- FrJ
   NewAddrs <- NoNew
   XferTo <- NoXfer
